@@ -400,6 +400,7 @@ func (c *channel) processCommand(ctx context.Context, sender RequestCommandSende
 	c.processingCmdsMu.Unlock()
 
 	defer func() {
+		verifPoint("process:before-cleanup")
 		c.processingCmdsMu.Lock()
 		delete(c.processingCmds, reqCmd.ID)
 		c.processingCmdsMu.Unlock()
@@ -431,6 +432,7 @@ func (c *channel) trySubmitCommandResult(respCmd *ResponseCommand) bool {
 		return false
 	}
 
+	verifPoint("submit:after-lookup")
 	c.processingCmdsMu.Lock()
 	delete(c.processingCmds, respCmd.ID)
 	c.processingCmdsMu.Unlock()
